@@ -36,7 +36,13 @@ def gen_tables():
     d = {}
     d.update(bitd_gen.gen_bitd_tables())
     d.update(bitd_gen.gen_shared_state())
+    import lscr_common
+    d["Drx/Gen/DecoderState.lean"] = lscr_common.gen_module_state(DECODER_PACKAGES, "Drx.Gen.DecoderState")
     return d
+
+
+# every package whose decoders the property is about (the Lingo decompiler is C12's)
+DECODER_PACKAGES = ("bitd", "snd", "clut", "vwsc", "cast", "common", "stxt", "fmap", "key", "cas", "lctx", "vwlb", "vwcf", "riff", "dir")
 
 
 # ---------------------------------------------------------------------------------------------- pool
@@ -273,6 +279,17 @@ def other_inputs(rng, tier):
                 out.append(("%s^%d" % (name, p), kind, bytes(b), extra))
     for p in sorted((T / "snd").glob("*/*.snd_")):
         add("snd:" + p.stem, "snd", p.read_bytes())
+    # synthetic sounds with every header kind (the fixtures are all standard-header 8-bit mono, which is also what a fresh
+    # SampledSound holds: a sound object surviving from one decode to the next would not show with them alone): extended header
+    # 16-bit stereo / 16-bit mono / 8-bit 3 channels, an extended header that raises part-way (12 bits), then standard ones
+    import c07
+    pcm = bytes(range(1, 25))
+    add("snd:syn-ext16x2", "snd", c07.encode(c07.mk_spec(hdr=dict(ch=2, frames=6, bits=16), samples=pcm)), cuts=False)
+    add("snd:syn-ext16x1", "snd", c07.encode(c07.mk_spec(hdr=dict(ch=1, frames=12, bits=16), samples=pcm, rate=44100)), cuts=False)
+    add("snd:syn-ext8x3", "snd", c07.encode(c07.mk_spec(hdr=dict(ch=3, frames=8, bits=8), samples=pcm)), cuts=False)
+    add("snd:syn-ext12-raises", "snd", c07.encode(c07.mk_spec(hdr=dict(ch=2, frames=6, bits=12), samples=pcm)), cuts=False)
+    add("snd:syn-std", "snd", c07.encode(c07.mk_spec(samples=pcm, rate=11127)), cuts=False)
+    add("snd:syn-std-fmt1", "snd", c07.encode(c07.mk_spec(fmt=1, dts=[b"\x00\x05\x00\x00\x00\x80"], samples=pcm[:7])), cuts=False)
     for p in sorted((T / "clut").glob("*/*.CLUT")):
         add("clut:" + p.stem, "clut", p.read_bytes())
     for p in sorted((T / "vwsc").glob("*/*.VWSC")):
